@@ -49,8 +49,11 @@ PARTS = {
     ],
     "C11": [
         {"test": "TestVfC11Split",
-         "quick": {"checks": 8000, "shards": 4, "timeout": 300},
-         "thorough": {"checks": 600000, "shards": 16, "timeout": 1500}},
+         "quick": {"checks": 20000, "shards": 4, "timeout": 300},
+         "thorough": {"checks": 800000, "shards": 16, "timeout": 1500}},
+        {"test": "TestVfC11Send",
+         "quick": {"checks": 4000, "shards": 4, "timeout": 300},
+         "thorough": {"checks": 200000, "shards": 16, "timeout": 1500}},
     ],
 }
 
